@@ -26,17 +26,17 @@ EXEC = {
                 q='file:0,random:300,flat:200,emptydoc:60', t='file:0,random:6000,flat:5000,emptydoc:600', table='Tab_C04'),
     'C10': dict(owns=['C10'], decide='issue map structure on every logged result (key = path, $first = first recorded issue event, sanitizers), lock-step field events '
                 '(schema key -> resolved input key, KeyOf tag priority at every depth), every issue path in NodePathsOf(case) (node paths + IssuePath overrides incl. Required/NotNil), right issues under wrong paths (issue-paths)',
-                q='file:0,tags:900,random:300,long:0,deep:0', t='file:0,tags:12000,random:4000,long:0,deep:0'),
+                q='file:0,tags:900,random:300,long:0,deep:0', t='file:0,tags:8000,random:4000,long:0,deep:0'),
     'C12': dict(owns=['C12'], decide='C12_PTOnlyWhenClean, C12_CallbackArgs (MC); lock-step test/pt events with argument class, value seen and ctx.Get snapshot; how PostTransform/Preprocess errors (plain, ZogIssue, error wrapping a ZogIssue) become issues',
                 q='file:0,universe:600,callbacks:600,preprocess:300,random:200', t='file:0,universe:0,callbacks:10000,preprocess:4000,random:4000'),
     'C13': dict(owns=['C13'], decide='pairs Validate(&v) / Parse(toMap(v), &fresh) on fully populated values: TLC compares the two logged results (path, code, type, message, value) '
                 'and each with the reference',
-                q='file:0,pairs:900,pairspt:500,long:0', t='file:0,pairs:15000,pairspt:8000,long:0'),
+                q='file:0,pairs:900,pairspt:500,long:0', t='file:0,pairs:10000,pairspt:5000,long:0'),
     'C03': dict(owns=['C03'], decide='C03_Dest (MC); logged destination of every successful Parse = RefDestParse (leaf values, slice length/order, untouched optionals, pointer allocation, $extra)',
                 q='file:0,universe:600,success:900,random:300,flat:200', t='file:0,universe:0,success:12000,random:4000,flat:4000'),
     'C14': dict(owns=['C14'], decide='one record rendered as Go map, JSON (zjson), zhttp JSON body, url-encoded form, query string and environment: every view is validated against the reference for the record '
                 '(KeyOf per front end, string leaves, flat sources resolving nested structs against the same source) and the views are compared with each other',
-                q='file:0,frontends:250', t='file:0,frontends:8000'),
+                q='file:0,frontends:250', t='file:0,frontends:5000'),
     'C09': dict(owns=['C09'], decide='every visit order explored by StructField (MC); all n! forced orders of each real case agree',
                 q='file:0,universe:1200,random:500,tags:250', t='file:0,universe:0,random:12000,tags:4000'),
 }
